@@ -232,7 +232,7 @@ class Graph:
             self.succ.setdefault(kf, []).append((a, kt))
         self.nedges = len(seen)
 
-    def edge_cover(self, rng, maxlen, want=None, tail=0):
+    def edge_cover(self, rng, maxlen, want=None, tail=0, maximal=False):
         """Paths from an initial state such that every edge (for which want(action, from, to) holds)
         is on at least one path. Paths are extended greedily through uncovered wanted edges and then
         by `tail` further random steps (to observe that the endpoint is still usable)."""
@@ -267,6 +267,8 @@ class Graph:
                     nxt = [(a2, t2) for a2, t2 in self.succ.get(cur, [])
                            if wanted(cur, a2, t2) and (cur, canon(a2), t2) not in covered
                            and (cur, canon(a2), t2) not in onpath]
+                    if not nxt and maximal:   # keep walking to a terminal state through covered edges
+                        nxt = list(self.succ.get(cur, []))
                     if not nxt:
                         break
                     a2, t2 = nxt[rng.randrange(len(nxt))]
